@@ -8,7 +8,7 @@ ID = "C04"
 LEAN_MODULE = "Ucfg.Props.C04"
 LEVEL_TEXT = "Per-constructor validation theorems over the typed Unpack model, lifted to whole targets: unpack_flat_valid (structs of primitive fields) and unpack_plain_valid / unpack_plain_list_valid / unpack_plain_map_valid (structs, pointers, slices, fixed-size arrays and maps nested to any depth, any tags except inline, any validators, any well-shaped pre-filled value and any configuration: a nil error implies recValidate reports nothing; one induction over the fuel with a claim per model function, results keep the shape of the type - the attempt exposed defect D43). For interface{} / inline / regexp / Config targets the lifted statement is PARTIAL: it is the Lean-evaluated oracle on the implementation's result over type-directed cases and a catalogue of named types with Validate/InitDefaults."
 CORRESPONDENCE = "Unpack.{unpack,mergeValue,reifyValue,reifyMapT,reifyStructT,sliceMerge,doArray,recValidate,runValidators} ~ (*Config).Unpack into reflect.StructOf targets"
-RULE = ("Plus: values with validators held in interface{} fields, map entries and list elements of a pre-filled hand-written target (kind ifaceheld; the result is checked by reflection in the worker: after a nil error no reachable value violates its tag), and the path of the one injected fault named by the error - also in lists that reached their length by a later merge. Main stream: type generator (structs nested through pointers, slices, arrays, maps, interface{} and inline fields, depth <= 4, random config "
+RULE = ("Plus: values with validators held in interface{} fields, map entries and list elements of a pre-filled hand-written target (kind ifaceheld; the result is checked by reflection in the worker: after a nil error no reachable value violates its tag or is rejected by its own Validate method), and the path of the one injected fault named by the error - also in lists that reached their length by a later merge. Main stream: type generator (structs nested through pointers, slices, arrays, maps, interface{} and inline fields, depth <= 4, random config "
         "tags incl. rename/inline/ignore/append/prepend/replace, random validate tags incl. duration bounds) realised with "
         "reflect.StructOf, x a configuration mentioning a random subset of the fields with valid values or one value violating a "
         "validator / of the wrong kind, x a pre-filled target (zero, valid, or invalid at a random position). Oracle (Lean): when Unpack "
@@ -32,6 +32,9 @@ def ifaceheld_cases(irng, tier):
             r = irng.below(6)
             if r == 0: return {"plain": U(3)}
             if r == 1: return None
+            if bad and irng.chance(0.4):
+                # passes its tag, rejected by its own Validate() method
+                return {"max": 2 + irng.below(5), "name": "bad", "ptr": irng.chance(0.4)}
             return {"max": (0 if bad else 2 + irng.below(5)), "ptr": irng.chance(0.4)}
         nm = 1 + irng.below(3)
         badk = irng.below(nm) if irng.chance(0.6) else None
